@@ -155,9 +155,9 @@ fn run_lora<R: RadioKind>(radio: R, bus: &Rc<RefCell<Bus>>, ops: &[&str]) -> Vec
                 };
                 rxpp = Some(pp);
                 match r {
-                    None => format!("CANCELLED buf={}", hex(&buf)),
+                    None => "CANCELLED buf=*".into(),
                     Some(Ok((n, st))) => format!("Ok({} rssi={} snr={}) buf={}", n, st.rssi, st.snr, hex(&buf)),
-                    Some(Err(e)) => format!("Err({:?}) buf={}", e, hex(&buf)),
+                    Some(Err(e)) => format!("Err({:?}) buf=*", e),
                 }
             }
             "switch" => res(run(lora.rx_switch_channel(int(a[1])))),
@@ -203,7 +203,10 @@ fn run_lwr<R: RadioKind>(radio: R, bus: &Rc<RefCell<Bus>>, ops: &[&str]) -> Vec<
     let mut out = vec![];
     bus.borrow_mut().trace.clear();
     let lora = match run(LoRa::new(radio, true, Delay(bus.clone()))) {
-        Some(Ok(l)) => l,
+        Some(Ok(l)) => {
+            out.push(format!("new Ok mode={} :: {}", mode_str(l.verif_state().0), bus.borrow().trace.join(" ")));
+            l
+        }
         _ => return vec!["new FAILED".into()],
     };
     let mut lw: lora_phy::lorawan_radio::LorawanRadio<R, Delay, 22> = lora.into();
@@ -236,18 +239,18 @@ fn run_lwr<R: RadioKind>(radio: R, bus: &Rc<RefCell<Bus>>, ops: &[&str]) -> Vec<
             "rxsingle" => {
                 let mut buf = vec![0xA5u8; int::<usize>(a[1])];
                 match run(lw.rx_single(&mut buf)) {
-                    None => format!("CANCELLED buf={}", hex(&buf)),
+                    None => "CANCELLED buf=*".into(),
                     Some(Ok(lorawan_device::async_device::radio::RxStatus::Rx(n, q))) => format!("Ok(Rx {} rssi={} snr={}) buf={}", n, q.rssi(), q.snr(), hex(&buf)),
-                    Some(Ok(lorawan_device::async_device::radio::RxStatus::RxTimeout)) => format!("Ok(RxTimeout) buf={}", hex(&buf)),
-                    Some(Err(e)) => format!("Err({:?}) buf={}", e, hex(&buf)),
+                    Some(Ok(lorawan_device::async_device::radio::RxStatus::RxTimeout)) => "Ok(RxTimeout) buf=*".into(),
+                    Some(Err(e)) => format!("Err({:?}) buf=*", e),
                 }
             }
             "rxcont" => {
                 let mut buf = vec![0xA5u8; int::<usize>(a[1])];
                 match run(lw.rx_continuous(&mut buf)) {
-                    None => format!("CANCELLED buf={}", hex(&buf)),
+                    None => "CANCELLED buf=*".into(),
                     Some(Ok((n, q))) => format!("Ok({} rssi={} snr={}) buf={}", n, q.rssi(), q.snr(), hex(&buf)),
-                    Some(Err(e)) => format!("Err({:?}) buf={}", e, hex(&buf)),
+                    Some(Err(e)) => format!("Err({:?}) buf=*", e),
                 }
             }
             "lowpower" => match run(lw.low_power()) {
